@@ -195,7 +195,7 @@ func exactCases(o Opts) {
 		if r.Intn(3) == 0 {
 			a = r.Float() * 60
 		}
-		z := math.Exp((r.Float()*2 - 1) * 4) * math.Max(a, 0.5)
+		z := math.Exp((r.Float()*2-1)*4) * math.Max(a, 0.5)
 		if r.Intn(3) == 0 {
 			z = r.Float() * 3
 		}
